@@ -47,6 +47,7 @@ class Region:
         self.item = None
         self.error = None
         self.line0 = self.line1 = 0   # line span in emitted unit
+        self.stubbed = None           # reason, when the current text cannot be processed and the template contract is assumed instead
 
     @property
     def name(self):
@@ -324,17 +325,54 @@ def _isolate(chunks, pid):
     return [c if isinstance(c, Region) else filt(c) for c in chunks]
 
 
-def build(unit, outdir, canary=False, pid=None, coarse=()):
-    """assemble the unit from the current tree -> Built(path, regions, text)"""
+def stub_text(r):
+    """the template's contract of a function whose current text cannot be processed, as an assumed (external_body) contract"""
+    ann = lex.tokenize(r.body)
+    k = ann.index("fn")
+    i = k
+    while i < len(ann):
+        t = ann[i]
+        if t in ("(", "["):
+            i = lex.match_close(ann, i) + 1
+            continue
+        if t == "{":
+            break
+        i += 1
+    if i >= len(ann):
+        raise Inconclusive("cannot find the body of %s in the template" % r.name)
+    header = [t for t in ann[:i] if not lex.is_label(t)]
+    if "->" in header and "impl" in header[header.index("->"):]:
+        raise Inconclusive("%s returns an opaque type: its contract cannot be assumed without its body" % r.name)
+    return "    #[verifier::external_body]\n" + lex.render(header, "    ").rstrip("\n") + " { unimplemented!() }\n"
+
+
+def build(unit, outdir, canary=False, pid=None, coarse=(), stub=None, autostub=False):
+    """assemble the unit from the current tree -> Built(path, regions, text)
+    stub: {region name: reason}: functions whose current text cannot be processed; their template contract is assumed"""
     tpath = os.path.join(CONTRACTS, unit + ".rs")
     chunks = _isolate(parse_template(tpath, unit), pid)
     regions = [c for c in chunks if isinstance(c, Region)]
     errors = []
+    stub = dict(stub or {})
     for r in regions:
         try:
-            if r.name in coarse:
-                r.opts["_coarse"] = "1"
-            build_region(r)
+            if r.kind == "fn" and r.name in stub:
+                r.stubbed = stub[r.name]
+            else:
+                if r.name in coarse:
+                    r.opts["_coarse"] = "1"
+                try:
+                    build_region(r)
+                except Inconclusive as e:
+                    if r.kind != "fn" or not autostub:
+                        raise
+                    # the function is gone, renamed or cannot be merged: assume its contract, the properties it serves are undecided
+                    r.stubbed = str(e)[:300]
+            if r.stubbed:
+                # a function that no longer exists in /repo is left out (whoever still refers to it is stubbed in turn)
+                r.out_text = "" if "item not found" in r.stubbed else stub_text(r)
+                r.changed = True
+                r.diff = "(current text not processed: %s)" % r.stubbed
         except Inconclusive as e:
             r.error = str(e)
             errors.append(str(e))
@@ -408,6 +446,11 @@ def run_verus(built, seed=0, rlimit=None, timeout=900):
         cmd += ["--smt-option", "smt.random_seed=%d" % seed]
     if rlimit:
         cmd += ["--rlimit", str(rlimit)]
+    if not os.path.exists(built.path):
+        # the scratch directory of the property that built this (cached) unit has been removed meanwhile
+        os.makedirs(os.path.dirname(built.path), exist_ok=True)
+        with open(built.path, "w") as f:
+            f.write(built.text)
     t0 = time.time()
     try:
         r = subprocess.run(cmd, capture_output=True, text=True, timeout=timeout, cwd=os.path.dirname(built.path))
@@ -429,6 +472,62 @@ def run_verus(built, seed=0, rlimit=None, timeout=900):
             if d.get("level") in ("error", "warning", "note"):
                 diags.append(d)
     return res, diags, wall, " ".join(cmd), r.stderr
+
+
+def hard_error_regions(built, diags):
+    """regions hit by compile (non-verification) errors -> (set of fn-region names, all_located)"""
+    names, located = set(), True
+    for d in diags:
+        if d.get("level") != "error" or d.get("message", "").startswith("aborting due to"):
+            continue
+        msg = d.get("message", "").lower()
+        if any(k in msg for k in ("postcondition", "precondition", "invariant", "assertion fail", "overflow", "underflow", "decreases", "rlimit", "resource limit")):
+            continue
+        hit = False
+        for sp in d.get("spans", []):
+            if not sp.get("is_primary"):
+                continue
+            r = region_at(built, sp["line_start"])
+            if r is not None and r.kind == "fn":
+                names.add(r.name)
+                hit = True
+        if not hit:
+            located = False
+    return names, located
+
+
+def _serves(r, pid):
+    """does the fn region carry a clause of pid (label `@Cxx.` in its text, or props=..; no props and no labels: every property)"""
+    labs = set(m.split(".")[0] for m in re.findall(r"@(C\d\d\.[A-Za-z0-9_]+)", r.body))
+    props = set(r.props() or [])
+    if not labs and not props:
+        return True
+    return pid in labs or pid in props
+
+
+def dependents(built, stubbed_name, pid):
+    """fn regions that carry a clause of pid and (transitively) call the stubbed function, or are it"""
+    fns = [r for r in built.regions if r.kind == "fn"]
+    short = {}
+    for r in fns:
+        short.setdefault(r.args[2], []).append(r.name)
+    calls = {}
+    for r in fns:
+        toks = lex.tokenize(r.body)
+        out = set()
+        for i in range(len(toks) - 1):
+            if toks[i + 1] == "(" and toks[i] in short and not (i > 0 and toks[i - 1] == "fn"):
+                out.update(short[toks[i]])
+        calls[r.name] = out
+    reach = {stubbed_name}
+    changed = True
+    while changed:
+        changed = False
+        for f, cs in calls.items():
+            if f not in reach and cs & reach:
+                reach.add(f)
+                changed = True
+    return sorted(r.name for r in fns if r.name in reach and _serves(r, pid))
 
 
 def region_at(built, line):
